@@ -545,13 +545,19 @@ func init() {
 		Assumptions: []string{"fault-free worlds only (every declared dependency is satisfiable and stays inside its package)", "the finder identifies the package it analyses by a content-id marker file, as real finders identify modules by content"},
 		Phases:      bundleWorldPhases("C08"),
 	})
+	c14phases := bundleWorldPhases("C14")
+	c14phases = append(c14phases, &fw.Phase{
+		Name: "concurrent-adds-exactly-once", Race: true, Shards: 16,
+		N:   fw.Fixed(64, 2000),
+		Run: c13Concurrent,
+	})
 	fw.Register(&fw.Property{
 		ID:    "C14",
 		Level: "exploration",
 		Rule: "same worlds as C08; every fetcher / registry / finder call and every BuildTracer event is appended to one sequence-numbered log. Offline checker: fetch count ==1 per closure package and 0 outside; version-list requests ==1 per registry package; source-address requests ==1 per selected (package, version); finder runs per (content, sub-path, finder) == number of distinct closure addresses mapping to it; per-key bracket automaton start -> (success|failure) -> already*; " +
-			"termination is decided logically: a build that makes more than 4x the reference closure's callbacks (+20) is aborted and reported. non-trivial = closure larger than the added set or a repeated Add; distinct = world",
+			"termination is decided logically: a build that makes more than 4x the reference closure's callbacks (+20) is aborted and reported. The same checker also runs over builds whose 2-8 Add calls are made concurrently on one builder (race-instrumented worker, yields injected in the callbacks). non-trivial = closure larger than the added set or a repeated Add; distinct = world",
 		Assumptions: []string{"event order is not constrained, only counts and brackets", "fault-free worlds only"},
-		Phases:      bundleWorldPhases("C14"),
+		Phases:      c14phases,
 	})
 	c17 := bundleWorldPhases("C17")
 	c17 = append(c17, c17Phases()...)
